@@ -9,7 +9,10 @@ emitted schema back yields the same interface (Literal members compared as a set
 
 Model: `CddVerif/Model/JsonSchema.lean` (`emit`, `parse`, `validSchema`, `validates`, `patAccepts`; the type tables are
 REGENERATED from /repo into `Gen/JsonSchemaTables.lean`).  Domain: `IR.ok` — types int/float/str/bool/dict/list,
-`Literal[str, …]` (members: non-empty words of letters, digits, `_`), `Optional[…]` of those; defaults typed by the
+`Literal[str, …]` (members: **any printable ASCII strings** — blanks, hyphens, dots, brackets, … — without `|`, the
+separator of the emitted pattern, and without `'` / `\`, which the parser does not re-escape; see `Typ.ok`),
+`Optional[…]` of those; `IR.plain` is the sub-domain whose members contain no regular-expression metacharacter (the
+clauses about the *meaning* of the pattern need it: the emitter does not escape); defaults typed by the
 parameter's type (or `None` on an `Optional`); parameter docs arbitrary; header prose and return entry from the
 trigger-free prose domain; **any number of parameters** (a Python dict has unique keys: hypothesis `Nodup` on the names).
 
@@ -18,7 +21,8 @@ code it is checked case by case (`json.dumps(allow_nan=False)` and reload) by `h
 "emitted dict = model `J`" only holds for dicts made of JSON types.
 
 What the unchanged code does **not** satisfy is proved as a negation with a concrete witness (each is a known finding
-replayed on the real code): `pattern_not_exact`, `roundtrip_drops_none_default`.
+replayed on the real code): `pattern_not_exact`, `roundtrip_drops_none_default`, `roundtrip_splits_bar_member`,
+`emitted_invalid_for_metacharacter_member`.
 -/
 namespace C06
 open JsonSchema Py Gen.JsonSchemaTables
@@ -150,12 +154,29 @@ example : requiredNames (emitT { name := none, doc := [], returns := none, param
 
 /-! ### valid draft 2020-12 schema -/
 
-/-- **clause "a valid draft 2020-12 schema"** — every schema emitted for an interface of the domain satisfies the
-    meta-schema fragment (`$id $schema description type properties required default pattern format`). -/
-theorem emitted_valid (ir : IR) (hok : ir.ok = true) (hnd : NamesUnique ir) (j : J) (h : emit ir = .ok j) :
-    validSchema j = true := by
+/-- full statement of **clause "a valid draft 2020-12 schema"** on the whole domain -/
+def emitted_valid_full : Prop :=
+  ∀ (ir : IR) (j : J), ir.ok = true → NamesUnique ir → emit ir = .ok j → validSchema j = true
+
+/-- **partial (proved):** every schema emitted for an interface of the domain *whose `Literal` members contain no
+    regular-expression metacharacter* (`IR.plain`) satisfies the meta-schema fragment
+    (`$id $schema description type properties required default pattern format`).  Missing for the full statement:
+    members with metacharacters — the emitter does not escape them, see the negation below. -/
+theorem emitted_valid (ir : IR) (hok : ir.ok = true) (hpl : ir.plain = true) (hnd : NamesUnique ir) (j : J)
+    (h : emit ir = .ok j) : validSchema j = true := by
   rw [emit_eq ir j h]
-  exact validSchema_emitT ir hok hnd
+  exact validSchema_emitT ir hok hpl hnd
+
+/-- **negation (known finding C06-pattern-unescaped):** `Literal['a(b', 'c']` is in the domain; its pattern `a(b|c` is
+    not a regular expression (`check_schema` rejects the schema — replayed on the real code; `validSchema` answers
+    `false` for every pattern outside the literal-alternation alphabet, so by itself this Lean fact only says that the
+    model does not vouch for the schema). -/
+theorem emitted_invalid_for_metacharacter_member : ¬ emitted_valid_full := by
+  intro h
+  have := h { name := some js!"F", doc := [], returns := none, params :=
+      [(js!"a", { typ := { optional := false, core := .lit [js!"a(b", js!"c"] } })] } _ (by decide) (by decide) rfl
+  revert this
+  decide
 
 /-- the fragment is not trivially true: the schema the emitter wrote before commit 40dabda (`"description": null`) fails -/
 example : validSchema (.obj [(js!"$id", .str js!"x"), (js!"description", .null), (js!"type", .str js!"object")]) = false := by decide
@@ -170,8 +191,10 @@ theorem tables_cover_domain (b : Base) :
 
 /-! ### defaults validate -/
 
-/-- **clause "every emitted default validates against its own property schema"** (typed-default domain `paramOk`). -/
-theorem default_validates (ir : IR) (hok : ir.ok = true) (j : J) (h : emit ir = .ok j)
+/-- **clause "every emitted default validates against its own property schema"** (typed-default domain `paramOk`;
+    `Literal` members without metacharacters, `IR.plain`: on the real code the unescaped pattern `c+d` rejects its own
+    member `c+d` — known finding C06-pattern-unescaped, outside what `patAccepts` models). -/
+theorem default_validates (ir : IR) (hok : ir.ok = true) (hpl : ir.plain = true) (j : J) (h : emit ir = .ok j)
     (name : Str) (prop d : J) (hp : (name, prop) ∈ propertiesOf j) (hd : keyOf js!"default" prop = some d) :
     validates prop d = true := by
   rw [emit_eq ir j h] at hp
@@ -185,7 +208,7 @@ theorem default_validates (ir : IR) (hok : ir.ok = true) (j : J) (h : emit ir = 
   have hd' : emittedDefault np.2 = some d := by
     rw [emitProp_eq] at hd
     simpa [keyOf, lookup_default] using hd
-  exact validates_default np.2 hpo d hd'
+  exact validates_default np.2 hpo (IR.plain_params ir hpl np hnp) d hd'
 
 /-- non-vacuity of the hypotheses: `sample` (below, at `roundtrip`) is in the domain, is emitted, and its Literal
     property carries a default -/
@@ -210,20 +233,25 @@ theorem literal_becomes_pattern (p : Param) (ms : List Str) (h : p.typ.core = .l
 
 /-- full statement of **clause "a Literal type becomes a pattern accepting exactly its members"** -/
 def pattern_exact_full : Prop :=
-  ∀ (ms : List Str) (s : Str), ms ≠ [] → ms.all memberOk = true → (patAccepts (patternOf ms) s = true ↔ s ∈ ms)
+  ∀ (ms : List Str) (s : Str), ms ≠ [] → ms.all (fun m => m.all plainChar) = true →
+    (patAccepts (patternOf ms) s = true ↔ s ∈ ms)
 
-/-- what is true: the pattern accepts exactly the strings that **contain** a member (unanchored `re.search`) -/
-theorem pattern_accepts_iff_contains_member (ms : List Str) (s : Str) (hne : ms ≠ []) (hok : ms.all memberOk = true) :
+/-- what is true (members without regular-expression metacharacters): the pattern accepts exactly the strings that
+    **contain** a member (unanchored `re.search`) -/
+theorem pattern_accepts_iff_contains_member (ms : List Str) (s : Str) (hne : ms ≠ [])
+    (hok : ms.all (fun m => m.all plainChar) = true) :
     patAccepts (patternOf ms) s = true ↔ ∃ m ∈ ms, isInfix m s = true :=
   patAccepts_patternOf ms hne hok s
 
-/-- non-vacuity: members with digits and underscores satisfy the hypotheses; a non-member containing no member is rejected -/
-example : [js!"alpha", js!"b2", js!"x_1", js!"007"] ≠ [] ∧ [js!"alpha", js!"b2", js!"x_1", js!"007"].all memberOk = true ∧
-    patAccepts (patternOf [js!"alpha", js!"b2", js!"x_1", js!"007"]) js!"x_1" = true ∧
-    patAccepts (patternOf [js!"alpha", js!"b2", js!"x_1", js!"007"]) js!"x_2" = false := by decide
+/-- non-vacuity: members with digits, underscores, hyphens and blanks satisfy the hypotheses; a non-member containing
+    no member is rejected -/
+example : [js!"pre-release", js!"b2", js!"x_1", js!"long term"] ≠ [] ∧
+    [js!"pre-release", js!"b2", js!"x_1", js!"long term"].all (fun m => m.all plainChar) = true ∧
+    patAccepts (patternOf [js!"pre-release", js!"b2", js!"x_1", js!"long term"]) js!"long term" = true ∧
+    patAccepts (patternOf [js!"pre-release", js!"b2", js!"x_1", js!"long term"]) js!"long-term" = false := by decide
 
 /-- partial: every member is accepted -/
-theorem pattern_accepts_members (ms : List Str) (m : Str) (hok : ms.all memberOk = true) (hm : m ∈ ms) :
+theorem pattern_accepts_members (ms : List Str) (m : Str) (hok : ms.all (fun m => m.all plainChar) = true) (hm : m ∈ ms) :
     patAccepts (patternOf ms) m = true :=
   (patAccepts_patternOf ms (fun e => by simp [e] at hm) hok m).mpr ⟨m, hm, contains_self m⟩
 
@@ -255,8 +283,10 @@ theorem sameTyp_normTyp (t : Typ) : SameTyp (normTyp t) t := by
 
 /-- **partial (proved): the round trip holds for every interface of the domain whose defaults are not members of
     `none_types`** (`None`, and the strings `"None"` / "```(None)```") — any number of parameters, `Optional[Literal[…]]`,
-    members with digits and underscores included.  Missing for the full statement: exactly those defaults, see
-    `roundtrip_drops_none_default`. -/
+    and **every member string of printable ASCII without `|`, `'`, `\`** (hyphens, blanks, dots, `+`, parentheses, …:
+    no metacharacter restriction here — the parser only splits on `|`; `Typ.ok` spells out the two corner exclusions).
+    Missing for the full statement: exactly those defaults, see `roundtrip_drops_none_default`; outside the domain:
+    `roundtrip_splits_bar_member`. -/
 theorem roundtrip (ir : IR) (j : J) (hok : ir.ok = true) (hnd : NamesUnique ir) (h : emit ir = .ok j)
     (hnone : ∀ np ∈ ir.params, ∀ d, np.2.default = some d → d.isNone = false) :
     ∃ pir, parse j = .ok pir ∧ SameInterface pir ir := by
@@ -304,6 +334,25 @@ example : sampleOne.ok = true ∧ NamesUnique sampleOne ∧ emit sampleOne = .ok
     (parse (emitT sampleOne)).toOption.map (fun p => p.params.map (fun np => (np.1, np.2.typ))) =
       some [(js!"a", some js!"Literal['alpha']"), (js!"b", some js!"Optional[Literal['x_1']]")] := by
   refine ⟨by decide, by decide, rfl, by decide⟩
+
+/-- members with hyphens, blanks, dots, `+`, parentheses are in the domain of `roundtrip` and read back as themselves
+    (this is what an escaping emitter without an un-escaping parser would break) -/
+def sampleWide : IR :=
+  { name := some js!"F", doc := [], returns := none,
+    params := [(js!"a", { typ := ⟨false, .lit [js!"pre-release", js!"stable", js!"long term"]⟩, default := some (.str js!"stable") }),
+               (js!"b", { typ := ⟨true, .lit [js!"a.b", js!"c+d", js!"(x)", js!""]⟩ })] }
+example : sampleWide.ok = true ∧ NamesUnique sampleWide ∧ emit sampleWide = .ok (emitT sampleWide) ∧
+    (parse (emitT sampleWide)).toOption.map (fun p => p.params.map (fun np => (np.1, np.2.typ))) =
+      some [(js!"a", some js!"Literal['long term', 'pre-release', 'stable']"),
+            (js!"b", some js!"Optional[Literal['', '(x)', 'a.b', 'c+d']]")] := by
+  refine ⟨by decide, by decide, rfl, by decide⟩
+
+/-- why `|` is excluded from the members of the domain: `Literal['a|b', 'c']` is emitted as `a|b|c` and read back as
+    `Literal['a', 'b', 'c']` (known finding C06-member-with-bar, replayed on the real code) -/
+theorem roundtrip_splits_bar_member :
+    (parse (emitT { name := none, doc := [], returns := none, params :=
+        [(js!"a", { typ := { optional := false, core := .lit [js!"a|b", js!"c"] } })] })).toOption.map
+      (fun p => p.params.map (fun np => np.2.typ)) = some [some js!"Literal['a', 'b', 'c']"] := by decide
 
 /-- **negation (known finding C06-none-default-dropped):** `Optional[int]` with default `None`: the default is deleted by
     the emitter and absent after the round trip. -/
